@@ -68,12 +68,13 @@ def timeout (reason : List Nat) (k : Kind) : View := { code := statusOf k, hdrs 
 /-- nothing written at all (the panic is re-raised) -/
 def untouched : View := { code := 200, hdrs := [], body := [] }
 
+/-- a header map as the client sees it: one entry per key, sorted by key -/
+def canonH (h : Hdrs) : List (Nat × Nat) :=
+  (sortedKeys (h.map (·.1))).filterMap (fun k => (hget h k).map (fun v => (k, v)))
+
 /-- canonical view of a model writer -/
 def ofRec (r : Rec) : View :=
-  let h := r.snap.getD r.hdr
-  { code := r.code,
-    hdrs := (sortedKeys (h.map (·.1))).filterMap (fun k => (hget h k).map (fun v => (k, v))),
-    body := r.body }
+  { code := r.code, hdrs := canonH (r.snap.getD r.hdr), body := r.body }
 
 /-- first panic the script runs into on its own (value), if any -/
 def firstPanic : List Act → Bool → Option Nat
@@ -93,20 +94,15 @@ are fixed by the first `Flush`, every `Flush` sends the chunks written since the
 of the *unwrapped* handler sees; the wrapper must be transparent to it. -/
 
 structure Stream where
-  sent    : Option (Nat × List (Nat × Nat)) := none   -- status and headers fixed by the first Flush
+  sent    : Option (Nat × Hdrs) := none               -- status and header map fixed by the first Flush
   code    : Option Nat := none                         -- first WriteHeader / implicit 200 of the first Write
-  hdrs    : List (Nat × Nat) := []                     -- last Set per key, sorted by key
+  hdrs    : Hdrs := []                                 -- the header map as the work has set it (last Set per key)
   flushed : List Nat := []                             -- chunks already with the client
   pending : List Nat := []                             -- chunks written since the last Flush
   deriving Repr, DecidableEq
 
-def setSorted (k v : Nat) : List (Nat × Nat) → List (Nat × Nat)
-  | [] => [(k, v)]
-  | (k', v') :: rest => if k < k' then (k, v) :: (k', v') :: rest else if k = k' then (k, v) :: rest
-                        else (k', v') :: setSorted k v rest
-
 def Stream.step (st : Stream) : Act → Stream
-  | .setHeader k v => { st with hdrs := setSorted k v st.hdrs }
+  | .setHeader k v => { st with hdrs := hset st.hdrs k v }
   | .writeHeader c => if st.code.isNone then { st with code := some c } else st
   | .write b => { st with code := some (st.code.getD 200), pending := st.pending ++ b }
   | .flush => { st with sent := some (st.sent.getD (st.code.getD 200, st.hdrs)),
@@ -119,13 +115,13 @@ def stream (script : List Act) : Stream := script.foldl Stream.step {}
 def completeF (script : List Act) : View :=
   let st := stream script
   match st.sent with
-  | some (c, h) => { code := c, hdrs := h, body := st.flushed ++ st.pending }
-  | none => { code := st.code.getD 200, hdrs := st.hdrs, body := st.pending }
+  | some (c, h) => { code := c, hdrs := canonH h, body := st.flushed ++ st.pending }
+  | none => { code := st.code.getD 200, hdrs := canonH st.hdrs, body := st.pending }
 
 /-- what is already with the client after the first `i` actions (`none`: nothing was flushed) -/
 def streamedPrefix (script : List Act) (i : Nat) : Option View :=
   let st := stream (script.take i)
-  st.sent.map fun p => { code := p.1, hdrs := p.2, body := st.flushed }
+  st.sent.map fun p => { code := p.1, hdrs := canonH p.2, body := st.flushed }
 
 /-- how ServeHTTP came back, as observed by the harness -/
 inductive SRet where
